@@ -124,7 +124,7 @@ def failed_worker_task(seed):
 def run(ctx):
     wp.warm_up()
     quick = ctx.tier == "quick"
-    n_traces = 3 if quick else 40
+    n_traces = 3 if quick else 80
     seeds = [ctx.sub(("trace", i)) for i in range(n_traces)]
     lens = {}
     items = []
